@@ -12,14 +12,15 @@ from .common import call, call_func, driver_interp, new_obj
 class Conv(AbsVal):
     """Result of the third-party converter applied to a value."""
 
-    def __init__(self, src):
+    def __init__(self, src, how=None):
         self.src = src
+        self.how = how      # which converter produced it (method name and receiver), None = any
 
     def __repr__(self):
         return f"conv({self.src!r})"
 
     def __eq__(self, o):
-        return isinstance(o, Conv) and o.src == self.src
+        return isinstance(o, Conv) and o.src == self.src and (self.how is None or o.how is None or self.how == o.how)
 
     def __hash__(self):
         return hash(("Conv", repr(self.src)))
@@ -35,8 +36,9 @@ class Conv(AbsVal):
 class Hooks:
     """The pylatexenc converters: return conv(x) or raise (decided by the decision tape)."""
 
-    def __init__(self, fail_on):
+    def __init__(self, fail_on, message="conversion failed"):
         self.fail_on = fail_on
+        self.message = message
         self.calls = []
         self.ext_calls = []
 
@@ -44,8 +46,8 @@ class Hooks:
         if isinstance(recv, Unknown) and name in ("unicode_to_latex", "latex_to_text"):
             self.calls.append(args[0] if args else None)
             if args and args[0] in self.fail_on:
-                raise Raised(ExcVal("Exception", ["conversion failed"]), node)
-            return Conv(args[0] if args else None)
+                raise Raised(ExcVal("Exception", [self.message] if self.message is not None else []), node)
+            return Conv(args[0] if args else None, (name, recv.tag))
         return NotImplemented
 
     def call(self, it, fn, args, kwargs, node):
@@ -53,8 +55,8 @@ class Hooks:
             if fn.tag.endswith(".unicode_to_latex") or fn.tag.endswith(".latex_to_text"):
                 self.calls.append(args[0] if args else None)
                 if args and args[0] in self.fail_on:
-                    raise Raised(ExcVal("Exception", ["conversion failed"]), node)
-                return Conv(args[0] if args else None)
+                    raise Raised(ExcVal("Exception", [self.message] if self.message is not None else []), node)
+                return Conv(args[0] if args else None, (fn.tag.rsplit(".", 1)[-1], fn.tag.rsplit(".", 1)[0]))
             self.ext_calls.append((fn.tag, args, kwargs))
         return NotImplemented
 
@@ -89,12 +91,21 @@ def run(P: Program, rep: Report):
     rep.rule("C18.R3", "containment: when the converter fails for some value the block is returned as a middleware-error block "
                        "holding the original block and a PartialMiddlewareException; no exception escapes")
     for label, cls in classes.items():
-        for fail_on in ([], ["T"], ["L1"], ["SV"], ["T", "F2", "SV"]):
-            hooks = Hooks(fail_on)
+        plans = [([], "x"), (["T"], "conversion failed"), (["L1"], "conversion failed"), (["SV"], "conversion failed"),
+                 (["T", "F2", "SV"], "conversion failed"), (["T", "SV"], None), (["J1"], ""),
+                 (["T", "SV"], "was expecting '}' after \\end{quote} {0} {name}")]
+        if rep.tier == "thorough":
+            # every subset of the six convertible values fails, with and without a message
+            import itertools as _it
+            allv = ["T", "F1", "F2", "L1", "J1", "SV"]
+            plans = [(list(c), m) for r_ in range(0, 7) for c in _it.combinations(allv, r_) for m in ("conversion failed", None)]
+        for fail_on, msg in plans:
+            hooks = Hooks(fail_on, msg)
 
             def one(ctx):
                 hooks.calls.clear()
                 it = driver_interp(P, ctx, "middlewares.latex_encoding", {}, hooks)
+                it.size_abstraction = not fail_on      # the five-block library stands for one of any size (thresholds explored both ways)
                 lib, e, s, np = build(it, P)
                 try:
                     mw = it.construct(cls, [], {})
@@ -106,7 +117,7 @@ def run(P: Program, rep: Report):
                 bl = it.iterate(it.get_attr(out, "blocks"))
                 return ("return", (it, bl, e, s, np), None)
             for ctx, (kind, v, _x) in explore(one, 50):
-                cfg = f"{label}:fail_on={fail_on}"
+                cfg = f"{label}:fail_on={fail_on}" + ("" if msg else ":exception-without-message") + (":message-with-braces" if msg and "{" in msg else "")
                 if kind == "raise":
                     rep.fail("C18.R3", f"{label}:exception-escapes:{v.cls_name()}", cls.loc, f"{cls.name}.transform raises {v.cls_name()} ({v.exc!r}) when the converter fails for {fail_on}")
                     continue
@@ -208,6 +219,36 @@ def run(P: Program, rep: Report):
                     want_t, want_s = Conv(want_t), Conv(want_s)
                 rep.check(v[1] == want_t and v[2] == want_s, "C18.R5", f"{label}:{plan}", cls.loc,
                           f"{cls.name} applied {plan}: title becomes {v[1]!r}, @string value {v[2]!r}; every application must convert ({want_t!r})")
+
+    rep.rule("C18.R6", "middleware instances do not share conversions: an encoder applied to one library and a decoder (or a second, differently "
+                       "configured instance with its own converter) applied to another library holding the same texts each convert with their "
+                       "own converter (no result carried over through class-level or module-level state)")
+    for first, second, second_kw, want_method in (("encode", "decode", {}, "latex_to_text"), ("decode", "encode", {}, "unicode_to_latex"),
+                                                  ("decode", "decode", {"decoder": "custom"}, "latex_to_text"), ("encode", "encode", {"encoder": "custom"}, "unicode_to_latex")):
+        hooks = Hooks([])
+
+        def shared(ctx):
+            it = driver_interp(P, ctx, "middlewares.latex_encoding", {}, hooks)
+            lib1, _e, _s, _np = build(it, P)
+            lib2, e2, s2, _np2 = build(it, P)
+            try:
+                a = it.construct(classes[first], [], {})
+                kw = {k: Unknown("own-converter", "object") for k in second_kw}
+                b = it.construct(classes[second], [], kw)
+                call(it, a, "transform", lib1)
+                out = call(it, b, "transform", lib2)
+            except Raised as r:
+                return ("raise", r.cls_name())
+            except (Unsupported, LoopBound) as u:
+                raise AnalysisError(f"C18.R6: analyser cannot follow the LaTeX middlewares: {u}")
+            tv = it.get_attr(it.iterate(it.get_attr(e2, "fields"))[0], "value")
+            return ("values", tv, it.get_attr(s2, "value"))
+        for ctx, v in explore(shared, 20):
+            ok = v[0] == "values" and all(isinstance(x, Conv) and x.how is not None and x.how[0] == want_method and
+                                          (not second_kw or "own-converter" in x.how[1]) for x in v[1:])
+            rep.check(ok, "C18.R6", f"{first}-then-{second}{':own-converter' if second_kw else ''}", classes[second].loc,
+                      f"after a {first} middleware converted one library, a separate {second} middleware on another library with the same texts yields "
+                      f"{[(x, getattr(x, 'how', None)) for x in v[1:]]!r}: not converted by its own converter ({want_method})")
 
     rep.rule("C18.R4", "options: a custom encoder/decoder is used as given and cannot be combined with the other options "
                        "(ValueError); keep_math / enclose_urls select the conversion rules; keep_braced_groups / keep_math_mode "
